@@ -98,6 +98,47 @@ test t6() {
   x == 1
 }
 
+pub type Settlement {
+  amount: Int,
+  owner: ByteArray,
+}
+
+// t7 / t8: the same multi-line `expect`, at two indentation levels (the texts are equal up to
+// white space but not identical; anything keyed by a normalised form of the text collides)
+test t7() {
+  let d: Data = Some(Settlement { amount: 1, owner: #"" })
+  expect Some(Settlement {
+    amount,
+    ..
+  }): Option<Settlement> = d
+  amount == 1
+}
+
+test t8() {
+  let d: Data = Some(Settlement { amount: 1, owner: #"" })
+  when c1 is {
+    6 -> {
+      expect Some(Settlement {
+        amount,
+        ..
+      }): Option<Settlement> = d
+      amount == 1
+    }
+    _ -> False
+  }
+}
+
+// t9 / t10: the same trace text built differently, and the same `?` operand
+test t9() {
+  trace @"same text"
+  (c1 == 6)?
+}
+
+test t10() {
+  trace @"same text": @"more"
+  (c1  ==  6)?
+}
+
 pub fn exported(s: Shape) -> Int {
   when s is {
     Dot -> c1
@@ -190,6 +231,10 @@ fn histories(run: &mut Run, tier: Tier) -> (u64, u64, u64) {
         Item::Test("hist".into(), "t4".into()),
         Item::Test("hist".into(), "t5".into()),
         Item::Test("hist".into(), "t6".into()),
+        Item::Test("hist".into(), "t7".into()),
+        Item::Test("hist".into(), "t8".into()),
+        Item::Test("hist".into(), "t9".into()),
+        Item::Test("hist".into(), "t10".into()),
         Item::Fn("hist".into(), "exported".into()),
         Item::Fn("hist".into(), "exported2".into()),
         Item::Validator("val".into(), "v".into()),
